@@ -215,7 +215,7 @@ func termdbMain(args []string) error {
 		_, f3 := terminfo.LookupTerminfo(late + "-256color")
 		tw.Emit(trace.Ev{"ev": "Register", "name": trace.Str(late),
 			"unknown_before": errors.Is(e1, terminfo.ErrTermNotFound) && errors.Is(e2, terminfo.ErrTermNotFound) && errors.Is(e3, terminfo.ErrTermNotFound),
-			"found_after": f1 == nil && a != nil && a.Name == late, "truecolor_after": f2 == nil, "c256_after": f3 == nil})
+			"found_after":    f1 == nil && a != nil && a.Name == late, "truecolor_after": f2 == nil, "c256_after": f3 == nil})
 	}
 	restore()
 	if err := tw.Close(); err != nil {
